@@ -350,15 +350,36 @@ def r2_bounds(ctx, prog):
                     r.ok(f['qname'], site, '%d abstract states' % len(hits), file=f['file'], line=line)
 
 
+def r3_length_siblings(ctx, prog):
+    r = ctx.rule('C12.R3', 'the public and the private key class of an algorithm report the same output length', floor=4, engine='E7')
+    for alg in ('RSA', 'DSA', 'EC', 'ED', 'DH', 'GOST'):
+        a, b = prog.fns('%sPublicKey::getOutputLength' % alg), prog.fns('%sPrivateKey::getOutputLength' % alg)
+        if not a or not b:
+            continue
+        ra = sorted({canon(n.get('e')) for n in walk(a[0]['body']) if n.get('k') == 'Return'})
+        rb = sorted({canon(n.get('e')) for n in walk(b[0]['body']) if n.get('k') == 'Return'})
+        ctx.analysed(a[0])
+        ctx.analysed(b[0])
+        site = '%s getOutputLength' % alg
+        if ra == rb:
+            r.ok('%sPublicKey/%sPrivateKey' % (alg, alg), site, ra[0] if ra else '-', file=b[0]['file'], line=b[0]['line'])
+        else:
+            r.violation('%sPrivateKey::getOutputLength' % alg, site, 'the private key reports %s, the public key %s: the length C_Sign / C_Decrypt announce and demand differs from the size of the signature / ciphertext block the public side works with '
+                        '(they differ e.g. for a stored modulus with a leading zero octet)' % (rb, ra), file=b[0]['file'], line=b[0]['line'])
+
+
 def run(ctx):
     prog = ctx.prog('ossl-file')
     r1a_init(ctx, prog)
     r1b_gate(ctx, prog)
     r1cd_typestate(ctx, prog)
     r2_bounds(ctx, prog)
+    r3_length_siblings(ctx, prog)
 
 
 MUTANTS = [
+    dict(name='rsa-private-output-length-from-stored-modulus', rule='C12.R3', file='src/lib/crypto/RSAPrivateKey.cpp', after='unsigned long RSAPrivateKey::getOutputLength() const',
+         old='\treturn (getBitLength() + 7) / 8;', new='\treturn getN().size();'),
     dict(name='digestinit-no-idle-test', rule='C12.R1a', file='src/lib/SoftHSM.cpp', after='CK_RV SoftHSM::C_DigestInit(',
          old='\tif (session->getOpType() != SESSION_OP_NONE) return CKR_OPERATION_ACTIVE;\n', new=''),
     dict(name='encryptupdate-wrong-gate', rule='C12.R1b', file='src/lib/SoftHSM.cpp', after='CK_RV SoftHSM::C_EncryptUpdate(',
